@@ -548,6 +548,24 @@ func genSchedPlan(seed uint64, pool []plan.Op, byLang map[int][]int, neutral []i
 		}
 		nt = 0
 	}
+	if nt > 0 && r.Intn(15) == 0 && len(neutral) > 0 { // overlapping MnemonicToSeed calls (slow under the detector: few and short)
+		var seeds []int
+		for _, i := range neutral {
+			if pool[i].K == "seed" {
+				seeds = append(seeds, i)
+			}
+		}
+		if len(seeds) > 0 {
+			for t := 0; t < r.Range(2, 3); t++ {
+				ops := []plan.Op{pool[seeds[r.Intn(len(seeds))]]}
+				if r.Bool() {
+					ops = append(ops, pool[cand[r.Intn(len(cand))]])
+				}
+				sp.Tasks = append(sp.Tasks, ops)
+			}
+			nt = 0
+		}
+	}
 	for t := 0; t < nt; t++ {
 		no := r.Range(1, 4)
 		var ops []plan.Op
